@@ -23,6 +23,7 @@ import (
 
 	"github.com/fatedier/frp/pkg/util/log"
 	netpkg "github.com/fatedier/frp/pkg/util/net"
+	"github.com/fatedier/frp/pkg/util/verifhook"
 	"github.com/fatedier/frp/pkg/util/xlog"
 )
 
@@ -251,6 +252,7 @@ func (v *Muxer) handle(c net.Conn) {
 	c = sConn
 
 	xl.Debugf("new request host [%s] path [%s] httpUser [%s]", name, path, httpUser)
+	verifhook.At("vhost.handoff", "host", name, "u", c.RemoteAddr().String())
 	err = errors.PanicToError(func() {
 		l.accept <- c
 	})
